@@ -1620,6 +1620,12 @@ func nless(a, b string) int {
 		default:
 			return 0
 		}
+	case ae == nil:
+		// Numbers sort before everything else; this keeps the
+		// comparison transitive.
+		return -1
+	case be == nil:
+		return 1
 	case a < b:
 		return -1
 	case a > b:
@@ -1670,7 +1676,9 @@ func (s sortedErrors) Less(i, j int) bool {
 			return false
 		}
 	}
-	return false
+	// Make the order total so that it does not depend on the order in
+	// which the errors were collected.
+	return s[i].s < s[j].s
 }
 
 // errorSort sorts the strings in the errors slice assuming each line starts
